@@ -185,6 +185,7 @@ var ctors = []ctor{
 	{1, func(k []Ty) Ty { return Ty{K: "func", E: []Ty{k[0], unit}} }},       // A->()
 	{2, func(k []Ty) Ty { return Ty{K: "func", E: []Ty{k[0], k[1], unit}} }}, // A->B->()
 	{1, func(k []Ty) Ty { return Ty{K: "gen", Name: "G", E: k} }},
+	{1, func(k []Ty) Ty { return Ty{K: "gen", Name: "GU", E: k} }}, // a generic user UNION (its own branch in the type printer)
 	{1, func(k []Ty) Ty { return Ty{K: "gen", Name: "ext.Box", E: k} }},
 	{2, func(k []Ty) Ty { return Ty{K: "gen", Name: "ext.Pair", E: k} }},
 }
@@ -239,7 +240,10 @@ package_info _ =
   let mkNone<T>: ()->[]T
 `
 
-const userTypes = `type R0 = {X: int}
+const userTypes = `type GU<T> =
+  | GUa of T
+  | GUb
+type R0 = {X: int}
 type U0 =
   | UA
   | UB of int
@@ -265,7 +269,7 @@ func render(exprs []Ty, pos map[string]bool) (string, map[string]string) {
 	// pos["fwd"]: RecT / UniT open an and-group whose later members are the user types they mention
 	fwd := pos["fwd"] && (pos["field"] || pos["payload"])
 	if fwd {
-		sb.WriteString(strings.Replace(prelude, "@USERTYPES@", "type G<T> = {V: T}\n", 1))
+		sb.WriteString(strings.Replace(prelude, "@USERTYPES@", "type G<T> = {V: T}\ntype GU<T> =\n  | GUa of T\n  | GUb\n", 1))
 	} else {
 		sb.WriteString(strings.Replace(prelude, "@USERTYPES@", userTypes, 1))
 	}
